@@ -37,6 +37,7 @@ type cleanStats struct {
 	WithClean    int            `json:"cases_with_a_task_named_clean"`
 	Nested       int            `json:"cases_run_from_a_nested_directory"`
 	SymlinkCases int            `json:"cases_with_symbolic_links_implementation_only"`
+	StdoutFull   int            `json:"cases_with_stdout_on_a_device_where_every_write_fails"`
 	Removed      int            `json:"paths_removed_in_total"`
 	Samples      []string       `json:"samples"`
 	OracleFail   map[string]int `json:"oracle_failures"`
@@ -297,6 +298,15 @@ func cleanCmd(args []string) error {
 		cmd.Env = []string{"HOME=" + home, "PATH=/usr/bin:/bin"}
 		var se bytes.Buffer
 		cmd.Stderr = &se
+		// one case in five: standard output is a device on which every write fails (a log on a full disk): what gets removed
+		// does not depend on whether the progress lines could be printed
+		if k%5 == 2 {
+			if full, err := os.OpenFile("/dev/full", os.O_WRONLY, 0); err == nil {
+				cmd.Stdout = full
+				defer full.Close()
+				st.StdoutFull++
+			}
+		}
 		exit := 0
 		if err := cmd.Run(); err != nil {
 			exit = 1
